@@ -190,6 +190,14 @@ class Polylist(primitive.Primitive):
             self._texcoord_indexset = tuple()
             self.maxtexcoordsetindex = -1
 
+        # triangleset() hands these sources to TriangleSet, which checks them and
+        # normalises their component names; do it here so that triangulating
+        # leaves the sources as they are
+        if len(self.index) > 0:
+            for semantic in ('TEXTANGENT', 'TEXBINORMAL'):
+                for texinput in sources.get(semantic, []):
+                    checkSource(texinput[4], ('X', 'Y', 'Z'), numpy.max(self.index[:, texinput[0]]))
+
         if xmlnode is not None:
             self.xmlnode = xmlnode
             """ElementTree representation of the line set."""
